@@ -187,25 +187,31 @@ def markAll (conns : List (Tid × ConnSt)) (k : Key) : List Tid → List (Tid ×
     let st := (assoc conns c).getD {}
     markAll (put conns c { st with watch := kput st.watch k true }) k cs
 
+/-- one iteration of `Watch`'s loop: the connection's own flag map … -/
+def watchIterW (w : List (Key × Bool)) (k : Key) : List (Key × Bool) :=
+  if (kassoc w k).isSome then w else kput w k false
+/-- … and the key's watcher list -/
+def watchIterReg (t : Tid) (reg : List (Key × List Tid)) (k : Key) : List (Key × List Tid) :=
+  match kassoc reg k with
+  | none => kput reg k [t]
+  | some cl => if cl.contains t then reg else kput reg k (t :: cl)
+
 /-- the loop of `Watch` -/
 def watchLoop (t : Tid) (reg : List (Key × List Tid)) (w : List (Key × Bool)) :
     List Key → List (Key × List Tid) × List (Key × Bool)
   | [] => (reg, w)
-  | k :: ks =>
-    let w := if (kassoc w k).isSome then w else kput w k false
-    let reg := match kassoc reg k with
-      | none => kput reg k [t]
-      | some cl => if cl.contains t then reg else kput reg k (t :: cl)
-    watchLoop t reg w ks
+  | k :: ks => watchLoop t (watchIterReg t reg k) (watchIterW w k) ks
+
+/-- one iteration of `UnWatch`'s loop -/
+def unwatchIter (t : Tid) (reg : List (Key × List Tid)) (k : Key) : List (Key × List Tid) :=
+  match kassoc reg k with
+  | none => reg
+  | some cl => kput reg k (cl.erase t)
 
 /-- the loop of `UnWatch` -/
 def unwatchLoop (t : Tid) (reg : List (Key × List Tid)) : List Key → List (Key × List Tid)
   | [] => reg
-  | k :: ks =>
-    let reg := match kassoc reg k with
-      | none => reg
-      | some cl => kput reg k (cl.erase t)
-    unwatchLoop t reg ks
+  | k :: ks => unwatchLoop t (unwatchIter t reg k) ks
 
 abbrev Out := Option (Shared × Loc × List Ev)
 
